@@ -8,7 +8,8 @@
    (the DO variables of the transformed loops and the symbols the transformation introduces).
 
    Proved at full strength: hoistbound, fold.  Proved under a sufficient syntactic condition (_partial): chunk,
-   fuse.  Refuted by concrete accepted witnesses: fuse (4), swap, chunk (3), tile, hoist (2), induction (3).
+   fuse.  Refuted by concrete accepted witnesses: fuse (4), swap, chunk (negative step; the step/chunk-size and
+   loop-variable-in-bounds refutations became refusals with the fix commits on /repo), tile, hoist (2), induction (3).
    Not proved (model + correspondence + refutation only): swap/tile/hoist/induction soundness conditions. *)
 From Coq Require Import List ZArith Bool.
 Import ListNotations.
@@ -56,20 +57,12 @@ Example C05_chunk_nonvacuous :
 Proof. exact chunk_nonvacuous. Qed.
 Print Assumptions C05_chunk_nonvacuous.
 
-Theorem C05_chunk_refuted_step : exists p path p',
-  chunk_apply 3 20%nat 21%nat path p = Some p' /\ ~ sim [0%nat; 20%nat; 21%nat] p p'.
-Proof. exact chunk_refuted_step. Qed.
-Print Assumptions C05_chunk_refuted_step.
 
 Theorem C05_chunk_refuted_neg : exists p path p',
   chunk_apply 2 20%nat 21%nat path p = Some p' /\ ~ sim [0%nat; 20%nat; 21%nat] p p'.
 Proof. exact chunk_refuted_neg. Qed.
 Print Assumptions C05_chunk_refuted_neg.
 
-Theorem C05_chunk_refuted_loopvar_bound : exists p path p',
-  chunk_apply 2 20%nat 21%nat path p = Some p' /\ ~ sim [0%nat; 20%nat; 21%nat] p p'.
-Proof. exact chunk_refuted_loopvar_bound. Qed.
-Print Assumptions C05_chunk_refuted_loopvar_bound.
 
 (* ---- LoopFuseTrans: plain, name-independent bodies (fuse_safe, coq/C05/Fuse.v) ---- *)
 Theorem C05_fuse_sound_partial : forall arrs x path p p',
